@@ -432,6 +432,15 @@ func init() {
 			U := gen.UTypes()
 			U = append(U, "true", "false", " a ", "\ta\n", "a\x00b", "%zz", "YQ==", "YQ", "a=b", "[1,2,", "nan", "1e1000", json.Number("3.0"), json.Number("-0"), json.Number("0.5"), big.NewInt(5), 5.0, []any{1, 1.0, big.NewInt(1)}, []any{"a", "b", "a"}, []any{[]any{1, 2}, []any{3}},
 				[]any{65, 66, 0x1F600}, []any{120, 4294967361, 121}, []any{4294967296, -4294967231, 1114112, -1}, []any{65.0, json.Number("66"), big.NewInt(67)}, []any{1e15, 9223372036854775807}, 4294967361, 4294967296, []any{1, "a", nil, true}, []any{"a,b", "c\"d", 1, nil, false}, map[string]any{"key": "k", "value": 1}, []any{map[string]any{"key": "k", "value": 1}, map[string]any{"name": "n", "Value": 2}}, []any{0, 1, 2, 3, 4}, "abcabc", "bc", "a b c", []any{"start", "end"}, 0.3, -7, 7, 1e15, -2.5, []any{3, 1, 2}, []any{[]any{"a", 1}, []any{"b", 2}})
+			// arrays beyond a dozen elements with tied keys (algorithms that switch strategy with size must stay stable)
+			{
+				var tied, nums []any
+				for i := 0; i < 20; i++ {
+					tied = append(tied, map[string]any{"a": i % 3, "i": i})
+					nums = append(nums, []any{1, 1.0, json.Number("1"), json.Number("1.0"), big.NewInt(1), 2, 0}[i%7])
+				}
+				U = append(U, tied, nums, tied[:13], append(append([]any{}, tied[:7]...), tied[:7]...))
+			}
 			c.Gauge("universe_size", int64(len(U)))
 			pick := func() run.TV { return run.TV{V: U[r.IntN(len(U))]} }
 			kC03Sync.Do(c, c03Sync{"builtin.go"})
